@@ -199,7 +199,7 @@ func bindValue(s *Summary, c *bindCase) {
 				binding.DisableValidator()
 			}
 			// the entry points: Auto picks the binder; the binder of the type itself; the binder's raw-data entry point
-			for _, entry := range []string{"Auto", "Bind", "raw"} {
+			for _, entry := range []string{"Auto", "Bind", "raw", "ctx", "ctxmust"} {
 				var req *http.Request
 				if media == "query" {
 					req = mkReq("GET", "/b?"+v.values().Encode(), "", "")
@@ -215,6 +215,35 @@ func bindValue(s *Summary, c *bindCase) {
 					err, pan = safeBind(func() error { return binding.Auto(req, &got) })
 				case media == "multipart/form-data":
 					continue
+				case entry == "ctx" || entry == "ctxmust":
+					// the methods of Context: BindForm / BindJSON / BindXML / ShouldBind(binder), and MustBind which panics with the error
+					// (ONE router for all of them: its pooled contexts go from bind to bind)
+					if bindCtxRouter == nil {
+						bindCtxRouter = rux.New()
+						bindCtxRouter.Any("/b", func(cx *rux.Context) { bindCtxHandler(cx) })
+					}
+					rr := bindCtxRouter
+					bindCtxHandler = func(cx *rux.Context) {
+						b := map[string]binding.Binder{"query": binding.Query, "application/x-www-form-urlencoded": binding.Form, "application/json": binding.JSON, "text/xml": binding.XML}[media]
+						switch {
+						case entry == "ctxmust":
+							defer func() {
+								if rec := recover(); rec != nil {
+									err = fmt.Errorf("MustBind panicked: %v", rec)
+								}
+							}()
+							cx.MustBind(&got, b)
+						case media == "application/x-www-form-urlencoded":
+							err = cx.BindForm(&got)
+						case media == "application/json":
+							err = cx.BindJSON(&got)
+						case media == "text/xml":
+							err = cx.BindXML(&got)
+						default:
+							err = cx.ShouldBind(&got, b)
+						}
+					}
+					_, pan = safeBind(func() error { rr.ServeHTTP(httptest.NewRecorder(), req); return nil })
 				case entry == "Bind":
 					b := map[string]binding.Binder{"query": binding.Query, "application/x-www-form-urlencoded": binding.Form, "application/json": binding.JSON, "text/xml": binding.XML}[media]
 					err, pan = safeBind(func() error { return b.Bind(req, &got) })
@@ -290,6 +319,9 @@ func bindValue(s *Summary, c *bindCase) {
 		}
 	}
 }
+
+var bindCtxRouter *rux.Router
+var bindCtxHandler func(cx *rux.Context)
 
 type bindVoid struct {
 	Link  string `xml:"link" json:"link"`
@@ -435,6 +467,14 @@ func bindLocalRequired() any {
 // malformed input yields an error and never a panic
 func bindMalformed(s *Summary) {
 	bindGating(s)
+	// with the validator on and off: a decoding error is an error either way
+	bindMalformedRun(s, "on")
+	binding.DisableValidator()
+	bindMalformedRun(s, "off")
+	binding.ResetValidator()
+}
+
+func bindMalformedRun(s *Summary, validator string) {
 	v := bindT{Age: 42, Name: "a&=é<", Ok: true, Tags: []string{"x", "y"}}
 	try := func(method, media, body string, mustErr bool) {
 		_, ctype := bodyFor(media, v)
@@ -451,9 +491,9 @@ func bindMalformed(s *Summary) {
 		s.Compared++
 		s.addInfo("malformed_inputs", 1)
 		if pan != nil {
-			s.mismatch(map[string]any{"kind": "bind", "aspect": "malformed", "what": fmt.Sprintf("%s body %q (%s): panicked: %v", method, body+target, media, pan)}, nil)
+			s.mismatch(map[string]any{"kind": "bind", "aspect": "malformed", "what": fmt.Sprintf("%s body %q (%s, validator %s): panicked: %v", method, body+target, media, validator, pan)}, nil)
 		} else if mustErr && err == nil {
-			s.mismatch(map[string]any{"kind": "bind", "aspect": "malformed", "what": fmt.Sprintf("%s truncated body %q (%s) was bound without error: %+v", method, body, media, got)}, nil)
+			s.mismatch(map[string]any{"kind": "bind", "aspect": "malformed", "what": fmt.Sprintf("%s malformed body %q (%s, validator %s) was bound without error: %+v", method, body+target, media, validator, got)}, nil)
 		}
 	}
 	for _, media := range []string{"application/json", "text/xml", "application/xml"} {
